@@ -432,6 +432,7 @@ def check_property(prop, tier, only=None, jobs=None, seed=0):
                 r["finding_present"] = True
                 ent = [k for k in known.get("known", []) if k["property"] == prop and k["key"] == h.key]
                 if ent:
+                    r["known_finding"] = True
                     log(f"KNOWN-FINDING: property={prop} {ent[0]['what']}")
                     continue
                 # a finding-witness that fails but is not listed is a new violation
@@ -481,9 +482,11 @@ def check_property(prop, tier, only=None, jobs=None, seed=0):
 
 def write_evidence(prop, tier, seed, results, smt, wall, violations, notes, build_s):
     obligations = sum(r["checks"] + r["covers"] for r in results)
-    discharged = sum((r["checks"] - r["failed"] - r["undetermined"]) + r["covers_sat"]
+    # a known-finding witness counts as discharged: its verdict (sat, with model) is the expected,
+    # listed one (known_findings.json); every other failed/undetermined check is not discharged
+    discharged = sum(((r["checks"] - r["undetermined"]) if r.get("known_finding") else
+                      (r["checks"] - r["failed"] - r["undetermined"])) + r["covers_sat"]
                      for r in results if r["status"] in ("success", "failed"))
-    # a known-finding witness counts as discharged: its verdict (sat, with model) is the expected one
     samples = []
     for r in results:
         samples.append({"engine": "kani/cbmc", "harness": r["harness"], "status": r["status"],
